@@ -303,6 +303,17 @@ class FakeSocket:
             raise r
         self.net.sent.append((self.peer, bytes(data)))
 
+    def send(self, data, *flags):
+        """like a real socket with a finite send buffer: ONE call takes at most net.send_max bytes and says how many"""
+        n = min(len(data), getattr(self.net, "send_max", 512))
+        part = bytes(data[:n])
+        r = self.net.on_send(self, self.peer, part) if self.net.on_send else None
+        self.net.log.append(("send", self.peer, n, type(r).__name__ if r is not None else "ok"))
+        if r is not None:
+            raise r
+        self.net.sent.append((self.peer, part))
+        return n
+
     def close(self):
         self.closed = True
 
@@ -551,3 +562,43 @@ def streaming_junk_probe(trecv, nrecv, chunk, dt, payload=None):
                 raise
     return dict(finish=finish, hung=hung, valid_queued=len(dist.incoming_items()) == 1, peers_unchanged_by_junk=unchanged,
                 recvs=sum(1 for e in client.log if e[0] == "recv"))
+
+
+def sender_probe(text_len, send_max=512, recv_bytes=2048, trecv=3):
+    """The SENDER's side of 'every message the sender reports as sent is decoded and applied': the real _tcp_send
+    writes a SYNC whose payload has about text_len characters to a socket whose send() takes at most send_max bytes
+    per call (sendall() loops, as the real one does); what reached the wire is then read by a real receiver.
+    -> dict(reported = _tcp_send's return value, wire_bytes, message_bytes, delivered)"""
+    snd, _ = make_stepped(2, me=1)
+    rcv, _ = make_stepped(2, me=0, timeout_receive=trecv, recv_bytes=recv_bytes)
+    runs = [make_run_serial(i, "x" * 40) for i in range(max(1, text_len // 330))]
+    payload = payload_json(updated=runs)
+    clock = FakeClock(start=1000.0, tick=0.01)
+    net = FakeNet([], clock)
+    net.send_max = send_max
+    full = []
+    real_encrypt = snd._crypto.encrypt
+
+    def spy(msg):
+        out = real_encrypt(msg)
+        full.append(bytes(out))
+        return out
+    snd._crypto.encrypt = spy
+    with installed(net, clock):
+        try:
+            rc = snd._tcp_send(snd._devices["dev0"], 0, 0, payload)
+        except Exception as e:   # noqa
+            rc = "raised %s" % type(e).__name__
+    wire = b"".join(b for (_peer, b) in net.sent)
+    delivered = False
+    if wire:
+        c2 = FakeClock(start=2000.0, tick=0.01)
+        client = ScriptedClient([wire, TIMEOUT], c2)
+        with installed(None, c2):
+            try:
+                rcv.handle_client(client, "10.0.0.2", 2000)
+            except BaseException as e:  # noqa
+                if isinstance(e, (KeyboardInterrupt, SystemExit)):
+                    raise
+        delivered = len(rcv.incoming_items()) == 1
+    return dict(reported=rc, wire_bytes=len(wire), message_bytes=len(full[0]) if full else None, delivered=delivered)
